@@ -42,11 +42,24 @@ def check_write_order(ck, R="C08.R1", only_output=False):
     _output_order(ck, R)
 
 
+def recv_calls(fa, name, recv_text):
+    """Calls `<recv>.name(...)` whose receiver is the given field, directly or through a local alias."""
+    out = []
+    for c in fa.calls(name):
+        rv = A.call_recv(c)
+        if rv is None:
+            continue
+        if A.dotted(rv) == recv_text or (fa.nodes(c) and fa.xnorm(rv, fa.nodes(c)[0]) == recv_text):
+            out.append(c)
+    return out
+
+
 def _memoize_order(ck, R):
     mz = FA(ck, "storage_base.StorageBackendBase.memoize")
-    st = [c for c in mz.calls("store") if A.dotted(A.call_recv(c)) == "self.codec"]
+    st = recv_calls(mz, "store", "self.codec")
     pm = [c for c in mz.calls("put_memento")]
-    asg = [s for s in mz.stmts(ast.Assign) if any(A.dotted(t) == "memento.content_key" for t in s.targets)]
+    mp = mz.fi.params[2] if len(mz.fi.params) > 3 else "memento"
+    asg = [s for s in mz.stmts(ast.Assign) if any(A.dotted(t) == mp + ".content_key" for t in s.targets)]
     ok = bool(st) and bool(pm) and all(mz.cfg.must_pass(mz.nodes_all(st), i) for i in mz.nodes_all(pm))
     ck.ob(R, mz.key(None, "data-before-metadata"), ok, "codec.store precedes put_memento on every path" if ok else
           "the memento can be written before (or without) the result data: a crash in between leaves a memento that points at nothing", mz.where())
@@ -55,7 +68,7 @@ def _memoize_order(ck, R):
           "put_memento can run before the content key is recorded", mz.where())
     # the memory cache is written through only once the store has accepted the result: a failed
     # write must not leave the cache (or its weak references) claiming the call is memoized
-    cputs = [c for c in mz.calls("put") if A.dotted(A.call_recv(c)) == "self._memory_cache"]
+    cputs = recv_calls(mz, "put", "self._memory_cache")
     okc = bool(cputs) and bool(pm) and all(mz.cfg.must_pass(mz.nodes_all(pm), i) for i in mz.nodes_all(cputs))
     ck.ob(R, mz.key(None, "cache-after-store"), okc, "the cache is filled after the memento was written" if okc else
           "memoize fills the memory cache before the store write: when that write fails (disk full) is_memoized keeps answering True from the "
@@ -116,12 +129,16 @@ def path_role(fa, expr, node_id=None):
     return roles.pop() if len(roles) == 1 else None
 
 
+ONESHOT = ("write_text", "write_bytes")      # Path.write_*: open, write, close in one call
+
+
 def write_opens(ck, fa):
-    """Write-mode opens of a function, by what they open: {'pointer': [...], 'object': [...]} ('object' = any
-    write-mode open that is not the pointer: the versioned path itself or a staging name)."""
+    """Write sites of a function (write-mode opens and Path.write_text / write_bytes), by what they write:
+    {'pointer': [...], 'object': [...]} ('object' = any write that is not the pointer: the versioned path itself
+    or a staging name)."""
     out = {"pointer": [], "object": []}
-    for c in fa.calls("open"):
-        if c in ck.cg.fs_write_sites.get(fa.qual, []) and fa.nodes(c):
+    for c in fa.calls():
+        if A.call_attr(c) in ("open",) + ONESHOT and c in ck.cg.fs_write_sites.get(fa.qual, []) and fa.nodes(c):
             out["pointer" if path_role(fa, open_path(c), fa.nodes(c)[0]) == "pointer" else "object"].append(c)
     return out
 
@@ -165,6 +182,7 @@ def _output_order(ck, R):
     holds_pointer = lambda w: any(any(x is c for x in ast.walk(it.context_expr)) for it in w.items for c in wo["pointer"])
     # the statements that put bytes into the object (not the write of the pointer's own content)
     copy = [c for c in fo.calls("copyfileobj") + fo.calls("write") if not any(holds_pointer(w) for w in _with_ancestors(fo, c))]
+    copy += [c for c in wopen if A.call_attr(c) in ONESHOT]
     okm = bool(mk) and bool(wopen) and all(fo.cfg.must_pass(fo.nodes_all(mk), i) for i in fo.nodes_all(wopen))
     ck.ob(R, fo.key(None, "mkdir-before-open"), okm, "version directory created before the object is opened" if okm else
           "the object can be opened before its version directory exists", fo.where())
@@ -175,7 +193,7 @@ def _output_order(ck, R):
             okp = False
     # an object opened without a `with` must be closed before the publication
     for c in wopen:
-        if not any(holds_object(w) for w in _with_ancestors(fo, c)):
+        if not any(holds_object(w) for w in _with_ancestors(fo, c)) and A.call_attr(c) not in ONESHOT:
             closes = fo.calls("close")
             if not (closes and all(fo.cfg.must_pass(fo.nodes_all(closes), i) for i in fo.nodes_all(pub))):
                 okp = False
@@ -199,6 +217,8 @@ def _output_order(ck, R):
         # inlined pointer write: what is written into it is the very path the object was written to
         w = [x for x in _with_ancestors(fo, p) if holds_pointer(x)]
         wr = [c for c in fo.calls("write") if w and fo.inside(c, w[0]) and c.args]
+        if A.call_attr(p) in ONESHOT and p.args:
+            wr = [p]
         okv = bool(wr) and bool(wopen)
         for c in wr:
             for o in wopen:
@@ -211,6 +231,7 @@ def _output_order(ck, R):
     wlo = write_opens(ck, wl)["pointer"]
     wr = [c for c in wl.calls("write") if any(any(any(x is o for x in ast.walk(it.context_expr)) for it in w.items for o in wlo)
                                                for w in _with_ancestors(wl, c))] or [c for c in wl.calls("write")]
+    wr += [c for c in wlo if A.call_attr(c) in ONESHOT]
     okw = bool(wr) and all("call:" + OBJ_PATH in wl.deps(c.args[0]) for c in wr if c.args)
     ck.ob(R, wl.key(None, "pointer-content"), okw, "pointer content is the versioned object path" if okw else
           "the pointer file does not contain the versioned object path", wl.where())
@@ -299,14 +320,15 @@ def _after_handler(fa, handler):
                 raises.append(nd.ast)
             if nd.kind == "stmt" and isinstance(nd.ast, ast.Return):
                 if nd.ast.value is None:
-                    vals.append((ast.Constant(None), i))
+                    vals.append((ast.Constant(None), i, IN))
                 else:
-                    vals += A0.cases(nd.ast.value, i, IN)
+                    vals += [(e, n, IN) for (e, n) in A0.cases(nd.ast.value, i, IN)]
     return vals, raises
 
 
-def _valid_flag_is(fa, e, n, value):
-    """Is the leaf value an ExistingMementoResult(...) whose valid flag is the given constant?"""
+def _valid_flag_is(fa, e, n, value, IN=None):
+    """Is the leaf value an ExistingMementoResult(...) whose valid flag is the given constant (on the paths
+    the definitions `IN` describe)?"""
     if not (isinstance(e, ast.Call) and A.call_attr(e) == "ExistingMementoResult"):
         return False
     v = A.kwarg(e, "valid_result")
@@ -314,10 +336,8 @@ def _valid_flag_is(fa, e, n, value):
         v = e.args[1]
     if v is None:
         return False
-    try:
-        return fa.xnorm(v, n) == repr(value)
-    except Exception:  # noqa
-        return A.norm(v) == repr(value)
+    leaves = Assume(fa, lambda x: None).cases(v, n, IN if IN is not None else fa.df.IN)
+    return bool(leaves) and all(isinstance(x, ast.Constant) and x.value is value for (x, _) in leaves)
 
 
 def _handler_appends_none(fa, handler, read_call):
@@ -383,9 +403,24 @@ def check_recovery(ck):
     ck.rule(R, "absorb and recover: I/O errors are absorbed around memoize in the local runner, around the read in "
                "process_existing_memento (=> not valid => recompute) and around the memento read in get_mementos "
                "(=> None); the partition-merge failure is an OSError", 4)
-    rl = FA(ck, "runner_local.memento_run_local")
-    mem = rl.some([c for c in rl.calls("memoize") if A.dotted(A.call_recv(c)) == "storage_backend"], "storage_backend.memoize call")
-    for c in mem:
+    rl0 = FA(ck, "runner_local.memento_run_local")
+    sites = [(rl0, c) for c in rl0.calls("memoize") if rl0.nodes(c) and rl0.xnorm(A.call_recv(c), rl0.nodes(c)[0]) == "storage_backend"]
+    if not sites:
+        # the write was moved into a helper that the front end could not fold back (e.g. it returns from inside
+        # the try): the clause is decided inside that helper, on the parameter that receives the backend
+        for (call, cands, how) in ck.cg.edges.get(rl0.qual, []):
+            for h in cands:
+                if h.module is not rl0.fi.module or h.cls is not None:
+                    continue
+                fh = FA(ck, h)
+                for c in fh.calls("memoize"):
+                    rv = A.call_recv(c)
+                    if isinstance(rv, ast.Name) and rv.id in h.params:
+                        passed = A.arg_or_kw(call, h.params.index(rv.id), rv.id)
+                        if passed is not None and rl0.nodes(call) and rl0.xnorm(passed, rl0.nodes(call)[0]) == "storage_backend":
+                            sites.append((fh, c))
+    ck.need(sites, "runner_local.memento_run_local: expected storage_backend.memoize call, found none")
+    for (rl, c) in sites:
         trys = _try_around(rl, c)
         hs = [h for t in trys for h in t.handlers if _handler_covers_oserror(h) and A.norm(h.type) not in ("Exception", "BaseException")]
         ok = bool(hs) and all(not any(isinstance(n, ast.Raise) for n in A.walk_local(h)) for h in hs[:1])
@@ -407,12 +442,35 @@ def check_recovery(ck):
             # whatever the function returns on a path through the handler is "not valid" (early return in the
             # handler or a result variable returned after the try), and nothing is re-raised
             vals, raises = _after_handler(pe, hs[0])
-            ok = bool(vals) and not raises and all(_valid_flag_is(pe, e, n, False) for (e, n) in vals)
+            ok = bool(vals) and not raises and all(_valid_flag_is(pe, e, n, False, IN) for (e, n, IN) in vals)
         ck.ob(R, pe.key(c, "read-error-means-invalid"), ok, "an I/O error while reading means 'not valid' (the caller recomputes)" if ok else
               "an I/O error while reading a memoized result is not turned into valid_result=False", pe.where(c))
     gm = FA(ck, "storage_base.DataSourceMetadataSource.get_mementos")
-    rm = gm.some([c for c in gm.calls("_read_memento")], "_read_memento call")
-    for c in rm:
+    rm = [c for c in gm.calls("_read_memento")]
+    if not rm:
+        # the guarded read was moved into a helper of the class that returns from inside its try (the front end
+        # does not fold that back): there, a path through the handler must answer None, and the caller must
+        # append that answer
+        A0 = Assume(gm, lambda e: None)
+        for (call, cands, how) in ck.cg.edges.get(gm.qual, []):
+            for h in cands:
+                if h.cls is not gm.fi.cls:
+                    continue
+                fh = FA(ck, h)
+                for c in fh.calls("_read_memento"):
+                    hs = [x for t in _try_around(fh, c) for x in t.handlers if _handler_covers_oserror(x)]
+                    ok = False
+                    if hs:
+                        vals, raises = _after_handler(fh, hs[0])
+                        ok = bool(vals) and not raises and all(A.is_none(e) for (e, n, IN) in vals)
+                        appended = [a for a in gm.calls("append") if len(a.args) == 1 and gm.nodes(a)
+                                    and any(e is call for (e, _) in A0.cases(a.args[0], gm.nodes(a)[0], gm.df.IN))]
+                        ok = ok and bool(appended)
+                    ck.ob(R, fh.key(c, "unreadable-means-absent"), ok, "an unreadable memento counts as absent" if ok else
+                          "an I/O error while reading a memento escapes get_mementos", fh.where(c))
+                    rm = None
+    ck.need(rm is None or rm, "storage_base.DataSourceMetadataSource.get_mementos: expected _read_memento call, found none")
+    for c in rm or []:
         trys = _try_around(gm, c)
         hs = [h for t in trys for h in t.handlers if _handler_covers_oserror(h)]
         ok = False
